@@ -42,7 +42,8 @@ CASES = {'quick': 0, 'thorough': 0}
 MIN_NONTRIVIAL = {'quick': 15000, 'thorough': 25000}
 EXHAUSTIVE = {'quick': False, 'thorough': True}
 REQUIRED = ('hands_enumerated', 'classes_tabled', 'operator_pairs',
-            'rejections_checked', 'equal_rank_pairs', 'accepted', 'refused')
+            'rejections_checked', 'equal_rank_pairs', 'accepted', 'refused',
+            'argument_forms_checked')
 
 DECKS = {
     'standard': Deck.STANDARD, 'shortdeck': Deck.SHORT_DECK_HOLDEM,
@@ -287,6 +288,32 @@ def run_shard(seed, shard, of, tier, deadline):
                 except ValueError:
                     continue
                 check_pair(res, clsname, low, a, ka, b, ka)
+        # argument-form tier: the same valid hand given as text, with tens
+        # spelt "10", as a list, a one-shot iterator or a generator
+        for a, ka in rng.sample(keep, min(len(keep), 250)):
+            t = text_of(a.cards)
+            forms = [('text', t), ('text-10', t.replace('T', '10')),
+                     ('text-spaced', ' '.join(repr(c) for c in a.cards)),
+                     ('list', list(a.cards)), ('iterator', iter(a.cards)),
+                     ('generator', (c for c in a.cards)),
+                     ('parse', Card.parse(t))]
+            for kind_, form in forms:
+                res.counters['argument_forms_checked'] += 1
+                try:
+                    b = cls(form)
+                except Exception as exc:   # noqa: BLE001
+                    res.violation(
+                        f'{clsname}({kind_} of {t}) raised '
+                        f'{type(exc).__name__}: {exc}; the tuple of cards '
+                        f'is a valid hand',
+                        {'cls': clsname, 'cards': t, 'form': kind_})
+                    continue
+                if not (b == a) or b.entry.index != a.entry.index:
+                    res.violation(
+                        f'{clsname}({kind_} of {t}) is a different hand '
+                        f'({b!r}, index {b.entry.index}) than the tuple '
+                        f'form (index {a.entry.index})',
+                        {'cls': clsname, 'cards': t, 'form': kind_})
         # rejection tier
         if shard == 0 or tier == 'thorough':
             for why, cards in rejection_inputs(kind, rng):
